@@ -559,6 +559,46 @@ theorem sequential_order (w : World) (ks : List Nat) :
   simp only [applyOrder, this]
   simpa using hsubs
 
+/-! ### order of the members after one of them is replaced, removed or added -/
+theorem any_odPop_self (d : List (String × Nat)) (k : String) : (odPop d k).any (·.1 == k) = false := by
+  simp [odPop, List.any_eq_false]
+
+/-- **A member (re)assigned by `setattr` runs last**: assignment drops the name's registration and registers anew, so the
+    container applies the remaining members in their old order and then the new one — whatever the name looks like (a
+    numeric key such as `"3"` of a positional Sequential included: the slot is NOT kept, and the keys are never re-sorted). -/
+theorem applyOrder_setAttr_mod (w : World) (m : Nat) (M : Mod) (name : String) (k : Nat)
+    (hM : w.mods[m]? = some M) :
+    applyOrder (setAttr w m name (.mod k)) m = (odPop M.subs name).map (·.2) ++ [k] := by
+  simp only [applyOrder, setAttr, regMod, updMod_getElem?, hM, Option.map_some, if_true]
+  simp [odSet_eq, any_odPop_self]
+
+/-- **A member removed by assignment of `None` / a plain value / a parameter** leaves the others in their order. -/
+theorem applyOrder_setAttr_other (w : World) (m : Nat) (M : Mod) (name : String)
+    (hM : w.mods[m]? = some M) :
+    applyOrder (setAttr w m name .other) m = (odPop M.subs name).map (·.2) := by
+  simp only [applyOrder, setAttr, updMod_getElem?, hM, Option.map_some, if_true]
+
+theorem applyOrder_setAttr_par (w : World) (m : Nat) (M : Mod) (name : String) (p : Nat)
+    (hM : w.mods[m]? = some M) :
+    applyOrder (setAttr w m name (.par p)) m = (odPop M.subs name).map (·.2) := by
+  simp only [applyOrder, setAttr, regPar, updMod_getElem?, hM, Option.map_some, if_true]
+  congr 1
+  simp [odPop]
+
+/-- **`register_module` over an existing key keeps the slot** (the entry is replaced where it stands); a new key is appended. -/
+theorem applyOrder_regMod (w : World) (m : Nat) (M : Mod) (name : String) (k : Nat)
+    (hM : w.mods[m]? = some M) :
+    applyOrder (regMod w m name k) m =
+      if M.subs.any (·.1 == name) then M.subs.map (fun e => if e.1 = name then k else e.2)
+      else M.subs.map (·.2) ++ [k] := by
+  simp only [applyOrder, regMod, updMod_getElem?, hM, Option.map_some, if_true, odSet_eq]
+  split
+  · simp only [List.map_map]
+    apply List.map_congr_left
+    intro e _
+    by_cases he : e.1 = name <;> simp [repl, he]
+  · simp
+
 /-! ### zero_grad / freeze / unfreeze act on exactly the parameters of the module -/
 theorem updPar_getElem? (w : World) (p : Nat) (f : Par → Par) (k : Nat) :
     (updPar w p f).pars[k]? = (w.pars[k]?).map (fun P => if k = p then f P else P) := by
@@ -629,5 +669,13 @@ def w0 : World :=
 example : parameters w0 (fuelOf w0) 1 = [0] := by decide
 example : numParams w0 1 = (3, 3, 0) := by decide
 example : (setTraining false (fuelOf w0) w0 1).mods.map (·.training) = [false, false] := by decide
+
+/-- a 12-member positional container: keys "0" … "11" in registration order (not "0","1","10","11","2",…); replacing member "3" by
+    assignment moves it to the end, `register_module("3", …)` keeps the slot -/
+def w12 : World := (sequential (newMod (newMod World.empty).1).1 [0, 1, 0, 1, 0, 1, 0, 1, 0, 1, 0, 1]).1
+example : (w12.mods[2]?.map (fun M => M.subs.map (·.1))) = some ["0", "1", "2", "3", "4", "5", "6", "7", "8", "9", "10", "11"] := by decide
+example : applyOrder w12 2 = [0, 1, 0, 1, 0, 1, 0, 1, 0, 1, 0, 1] := by decide
+example : applyOrder (setAttr w12 2 "3" (.mod 0)) 2 = [0, 1, 0, 0, 1, 0, 1, 0, 1, 0, 1, 0] := by decide
+example : applyOrder (regMod w12 2 "3" 0) 2 = [0, 1, 0, 0, 0, 1, 0, 1, 0, 1, 0, 1] := by decide
 
 end Props.C12
